@@ -178,7 +178,7 @@ func newConnLimiter(cfg M, next http.Handler) *connlimit.ConnLimiter {
 	if err != nil {
 		fatal("extractor: %v", err)
 	}
-	cl, err := connlimit.New(next, ex, int64(num(cfg, "max")))
+	cl, err := connlimit.New(next, ex, int64(num(cfg, "max")), connlimit.Logger(jitterLogger{}))
 	if err != nil {
 		fatal("connlimit.New: %v", err)
 	}
